@@ -1,7 +1,8 @@
 """C15 - Dykstra's projection is feasible, near-optimal and respects its stopping rule.
 
 alphabet: every ordered selection of <=3 (thorough <=4) sets from a bank of three balls, four half-spaces (two nearly
-          parallel) and two boxes with a common point x starts {inside, near, far, very far} x tolerances x sweep caps x n
+          parallel) and two boxes with a common point x starts {inside, near, far, very far, the projection of 'far' pushed outwards by 1e-12 and by
+          0.3*sqrt(tol)} x tolerances x sweep caps x n
 oracle  : sweeps counted through a wrapped projector; distance functions of the sets; the true projection is computed
           independently (long reference iteration polished by SLSQP) and *certified* by a KKT / non-negative least-squares
           check, so the reference itself is not trusted blindly.
@@ -15,7 +16,7 @@ LEVEL = "exploration"
 MOD = "vf.props.C15"
 
 TOLS = [1e-10, 1e-8, 1e-6, 1e-4]
-STARTS = ["inside", "near", "far", "veryfar"]
+STARTS = ["inside", "near", "far", "veryfar", "hair_ulp", "hair_tol"]
 
 
 OFFSET = [300.0, 400.0, -200.0, 150.0, -350.0, 250.0]
@@ -195,7 +196,20 @@ def check_case(case):
     specs = set_bank(n, salt, off)
     sets = [bank.CSet(specs[i]) for i in case["sel"]]
     p = len(sets)
-    x0 = start_point(case["start"], n, salt, off)
+    hair = case["start"].startswith("hair")
+    if hair:
+        # the certified projection of the 'far' start, pushed back outwards (along far - projection, i.e. inside the normal
+        # cone, so its own projection is the same point) by a hair: 1e-12, or 0.3*sqrt(tol) so that a whole first sweep
+        # moves the point by less than the stopping threshold
+        ref0, cert0 = reference_projection(n, salt, case["sel"], "far", off)
+        far = start_point("far", n, salt, off)
+        u = far - ref0
+        nu = float(np.linalg.norm(u))
+        if cert0 > 1e-7 or nu < 1e-6:
+            return [], ["hair_not_available"]
+        x0 = ref0 + (1e-12 * max(1.0, float(np.max(np.abs(ref0)))) if case["start"] == "hair_ulp" else 0.3 * np.sqrt(case["tol"])) * u / nu
+    else:
+        x0 = start_point(case["start"], n, salt, off)
     common_pt = np.full(n, 0.1) + (np.array(OFFSET[:n]) if off else 0.0)
     for s in sets:
         if s.dist(common_pt) > 0:
@@ -232,7 +246,7 @@ def check_case(case):
     elif case["max_iter"] >= 100 and not stopped and case["tol"] <= 1e-8:
         tags.append("optimality_eligible_but_capped")
     elif stopped:
-        ref, cert = reference_projection(n, salt, case["sel"], case["start"], off)
+        ref, cert = reference_projection(n, salt, case["sel"], "far" if hair else case["start"], off)
         if cert <= 1e-7:
             tags.append("optimality_checked")
             err = float(np.linalg.norm(out - ref))
@@ -251,6 +265,10 @@ def check_case(case):
         tags.append("many_sweeps")
     if off:
         tags.append("translated")
+    if hair:
+        tags.append("hair_start")
+        if any(s.dist(x0) > 0 for s in sets):
+            tags.append("hair_start_infeasible")
     return v, tags
 
 
@@ -263,7 +281,7 @@ def run(report, tier, seed):
     cs = cases(tier, salts)
     tags = gridx.run_grid(report, MOD, cs, classify=classify, chunk=96)
     cov = report.coverage
-    need = ["stopped_by_rule", "hit_cap", "start_inside", "optimality_checked", "inexact_feasible", "many_sweeps"]
+    need = ["stopped_by_rule", "hit_cap", "start_inside", "optimality_checked", "inexact_feasible", "many_sweeps", "hair_start_infeasible"]
     missing = [t for t in need if not tags.get(t)]
     if missing:
         raise common.HarnessError("C15 grid is vacuous: %s never occurred" % missing)
